@@ -133,7 +133,9 @@ func sandboxStream(sum *Summary, model *vd.Model, n int, seed int64) {
 		if c.Policy.Default == actKillP {
 			c.Policy.Default = actErrno
 		}
-		policyFile := filepath.Join(work, fmt.Sprintf("p%d.yml", i))
+		policiesDir := filepath.Join(work, "policies")
+		os.MkdirAll(policiesDir, 0o755)
+		policyFile := filepath.Join(policiesDir, fmt.Sprintf("p%d.yml", i))
 		marker := filepath.Join(work, fmt.Sprintf("ran%d", i))
 		os.Remove(marker)
 		if kind == "valid" {
@@ -147,7 +149,7 @@ func sandboxStream(sum *Summary, model *vd.Model, n int, seed int64) {
 		case "valid":
 			expectStart = true
 		case "missing":
-			policyFile = filepath.Join(work, "does-not-exist.yml")
+			policyFile = filepath.Join(policiesDir, "does-not-exist.yml")
 			yml = ""
 		case "directory":
 			policyFile = work
@@ -199,11 +201,28 @@ func sandboxStream(sum *Summary, model *vd.Model, n int, seed int64) {
 			}
 			yml = b.String()
 		}
+		if kind == "valid" && len(c.Policy.Groups) >= 2 && rng.Intn(5) == 0 {
+			// a large policy file: 70 KB of comment lines in front of the last group (a reader with a size cap
+			// would lose the rules behind them)
+			if at := strings.LastIndex(yml, "  - action: "); at > 0 {
+				yml = yml[:at] + strings.Repeat("  # "+strings.Repeat("-", 95)+"\n", 700) + yml[at:]
+				sum.Distribution["file:valid-larger-than-64KiB"]++
+			}
+		}
 		if yml != "" {
 			os.WriteFile(policyFile, []byte(yml), 0o644)
 		}
 		evj, _ := json.Marshal(c.Events)
-		args := []string{"-policy", policyFile}
+		policyArg := policyFile
+		relative := filepath.Dir(policyFile) == policiesDir && rng.Intn(3) == 0
+		if relative {
+			// the policy is named by a relative path (the sandbox is started in the policies directory), and a valid
+			// allow-everything policy file of the same base name lies next to the sandbox executable
+			policyArg = filepath.Base(policyFile)
+			os.WriteFile(filepath.Join(filepath.Dir(bin), policyArg), []byte("seccomp:\n  default_action: allow\n  syscalls:\n  - action: allow\n    names:\n    - getpid\n"), 0o644)
+			sum.Distribution["policy-path:relative-with-a-valid-namesake-next-to-the-executable"]++
+		}
+		args := []string{"-policy", policyArg}
 		nnp := rng.Intn(3) != 0
 		if !nnp {
 			args = append(args, "-no-new-privs=false")
@@ -232,6 +251,9 @@ func sandboxStream(sum *Summary, model *vd.Model, n int, seed int64) {
 			errno := []string{"ENOSYS", "ENOSYS", "EPERM", "EACCES", "EINVAL", "ENOMEM", "EFAULT", "ESRCH"}[rng.Intn(8)]
 			kind = "kernel-refuses:" + errno
 			cmd = exec.Command(strace, append([]string{"-f", "-qq", "-o", "/dev/null", "-e", "trace=seccomp", "-e", "inject=seccomp:error=" + errno, bin}, args...)...)
+		}
+		if relative {
+			cmd.Dir = policiesDir
 		}
 		var out, errb bytes.Buffer
 		cmd.Stdout, cmd.Stderr = &out, &errb
